@@ -22,20 +22,28 @@ def outcome(sid):
         s += ("; " if s else "") + "refused (exit 2): " + ", ".join(ref)
     return s, bool(det), bool(ref)
 
+# seeds that are no longer defects on the current /repo HEAD (re-run of every demo after each repair): kept in the corpus
+# as must-stay-silent material, reported separately
+SUPERSEDED = {sid: m["superseded"] for sid, m in metas.items() if m.get("superseded")}
 lines = []
-nd = nr = nm = 0
+nd = nr = nm = ns = 0
 lines.append("| id | change (written by an independent sub-agent) | needs, in order to manifest | outcome of the checks (check/rule) |")
 lines.append("|---|---|---|---|")
 for sid in defects:
     o, d, r = outcome(sid)
+    m = metas[sid]
+    if sid in SUPERSEDED:
+        ns += 1
+        lines.append(f"| {sid} | {m['change']} | {m['needs_to_manifest']} | no longer a defect: {SUPERSEDED[sid]} ({'all checks pass' if not d and not r else o}) |")
+        continue
     nd += d
     nr += (not d and r)
     nm += (not d and not r)
-    m = metas[sid]
     lines.append(f"| {sid} | {m['change']} | {m['needs_to_manifest']} | {o} |")
-head = (f"{len(defects)} confirmed seeded defects (demo fails with / passes without the patch; the 152 baseline tests unchanged): "
+head = (f"{len(defects) - ns} confirmed seeded defects (demo fails with / passes without the patch; the 152 baseline tests unchanged): "
         f"**{nd} reported as violation** by at least one check, **{nr} refused** (every affected check ends in exit 2 - the change moves the code "
-        f"outside the vocabulary, no verdict), **{nm} missed** (value-level clauses listed as *not decided*, plus a changed default argument and one costlier-but-valid table row).\n")
+        f"outside the vocabulary, no verdict), **{nm} missed** (value-level clauses listed as *not decided*, plus a changed default argument and costlier-but-valid table rows)."
+        + (f" {ns} further seed(s) stopped being a defect when a repair landed in `/repo` (every demo is re-run on HEAD + patch after each repair) and must now stay silent.\n" if ns else "\n"))
 rl = ["| id | refactoring | outcome (never a violation) |", "|---|---|---|"]
 npass = nref = 0
 for sid in refac:
